@@ -52,6 +52,9 @@ def check_add(acc, Time, q, r, dt):
     res = t + dt
     q2, r2 = res.quotient, res.remainder
     w = {"op": "add", "q": q.hex(), "r": r.hex(), "dt": dt.hex(), "res": [repr(q2), repr(r2)]}
+    if res is t:
+        acc.violation("C14:add-returns-its-operand", f"Time({q},{r}) + {dt} returned the operand itself, not a new time: an "
+                                                     f"in-place update of the result changes the operand", w)
     if not (isinstance(q2, float) and isinstance(r2, float)) or q2 != q2 or r2 != r2 or math.isinf(q2):
         acc.violation("C14:add-not-a-finite-time", f"Time({q},{r}) + {dt} -> {res!r}", w)
         return res
@@ -147,6 +150,18 @@ def check_inf(acc, Time, time_inf, q, r, dt):
     else:
         if not (b == time_inf) or not (b > t) or (b < t) or not (b >= time_inf):
             acc.violation("C14:inf-not-absorbing", f"time.inf + {dt!r} -> {b!r} does not compare as infinity", w)
+    # sums are new objects: what time slicing does to a result (in-place update) must never reach the operand, least of all
+    # the module's constant infinity
+    if a is t or b is time_inf:
+        acc.violation("C14:add-returns-its-operand", f"{'Time + inf' if a is t else 'time.inf + ' + repr(dt)} returned the "
+                                                     f"operand itself, not a new time", w)
+    else:
+        b.update(Time(q, r))
+        a.update(Time(q, r))
+    if not math.isinf(time_inf.quotient):
+        acc.violation("C14:infinity-constant-modified", f"after updating the result of time.inf + {dt!r} in place, time.inf is "
+                                                        f"{time_inf!r}", w)
+        time_inf.update(Time(INF, INF))
     if not (time_inf > t and t < time_inf and not (time_inf < t) and time_inf == Time(INF, INF) and time_inf >= t
             and t <= time_inf and t != time_inf):
         acc.violation("C14:inf-not-greater-than-finite", f"time.inf vs Time({q},{r})", w)
